@@ -93,7 +93,93 @@ Theorem C10_line_indent : forall W ii si l out,
 Proof. exact wrap_line_indent. Qed.
 Print Assumptions C10_line_indent.
 
-(* 9. when no chunk is longer than a continuation line, re-splitting the wrapped lines at blanks
+(* ---- what the written lines mean to MCNP (S5-S7 rules stated in Proofs/WrapProofs.v section 8, independently of
+        MontePy's code): mcnp_comment_line = a C in columns 1-5 followed by a blank or the end of the line;
+        data_tokens = the blank-separated words before the first '$' of every line that is no comment line;
+        comment_text = what follows the C of a comment line / the first '$' of another line ---- *)
+
+(* 9. wrapping never turns comment text into data or data into comment, and re-splitting the written lines gives
+      the tokens and the comment text of the unwrapped line (the comment text up to the blanks at the break points
+      and the "$ " / "c " markers of its continuation lines).
+      Hypotheses: MontePy's indents (cont = 5); 11 < W; the line is plain (its chunks are its blank-separated
+      runs: no tab, and textwrap's chunker did not split a word at a hyphen); MontePy's is_comment agrees with MCNP
+      about the written line; every run of the data part fits a continuation line.  Each hypothesis that excludes
+      a behaviour of the real code is matched by a _refuted theorem below. *)
+Theorem C10_line_meaning_partial : forall W cont (first : bool) line out,
+  5 <= cont -> cont + 2 < W -> 11 < W ->
+  is_comment line = mcnp_comment_line ((if first then "" else blanks cont) ++ line) ->
+  (is_comment line = false -> Forall (fun c => slen c <= W - cont) (split_ws (before_dollar line))) ->
+  wrap_line W (if first then "" else blanks cont) (blanks cont) (plain_line line) = WOk out ->
+  data_tokens out = data_tokens [(if first then "" else blanks cont) ++ line] /\
+  noblank (comment_text out) = noblank (comment_text [(if first then "" else blanks cont) ++ line]).
+Proof. exact wrap_line_meaning. Qed.
+Print Assumptions C10_line_meaning_partial.
+
+(* its hypotheses are satisfiable by a '$' comment that is continued on two lines, and by a comment line *)
+Example C10_line_meaning_nonvacuous :
+  let line := "1 2 3 $ a long comment that is wrapped" in
+  5 <= 5 /\ 5 + 2 < 20 /\ 11 < 20 /\ is_comment line = mcnp_comment_line ("" ++ line) /\
+  Forall (fun c => slen c <= 20 - 5) (split_ws (before_dollar line)) /\
+  wrap_line 20 "" (blanks 5) (plain_line line) =
+    WOk ["1 2 3 $ a long "; "     $ comment that "; "     $ is wrapped"].
+Proof. exact wrap_line_meaning_example. Qed.
+Print Assumptions C10_line_meaning_nonvacuous.
+
+Example C10_line_meaning_nonvacuous_comment_line :
+  let line := "c a comment line that is longer than twenty columns" in
+  is_comment line = mcnp_comment_line ("" ++ line) /\ is_comment line = true /\
+  wrap_line 20 "" (blanks 5) (plain_line line) =
+    WOk ["c a comment line "; "c that is longer "; "c than twenty "; "c columns"].
+Proof. exact wrap_line_comment_example. Qed.
+Print Assumptions C10_line_meaning_nonvacuous_comment_line.
+
+(* 9a. is_comment takes a continuation line whose first word is "c" for a comment line: data becomes comment *)
+Theorem C10_line_meaning_refuted_c_beyond_column_5 :
+  exists W line out,
+    11 < W /\ wrap_line W "" (blanks 5) (plain_line line) = WOk out /\
+    is_comment line = true /\ mcnp_comment_line line = false /\
+    Forall (fun c => slen c <= W - 5) (split_ws (before_dollar line)) /\
+    data_tokens out <> data_tokens [line].
+Proof. exact wrap_line_meaning_refuted_c_beyond_column_5. Qed.
+Print Assumptions C10_line_meaning_refuted_c_beyond_column_5.
+
+(* 9b. textwrap's chunker splits "be-met.40t" after the hyphen: a token is written on two lines *)
+Theorem C10_line_meaning_refuted_hyphen :
+  exists W l out,
+    11 < W /\ String.concat "" (l_chunks l) = l_text l /\ is_comment (l_text l) = false /\
+    mcnp_comment_line (l_text l) = false /\
+    Forall (fun c => slen c <= W - 5) (l_chunks l) /\
+    wrap_line W "" (blanks 5) l = WOk out /\
+    data_tokens out <> data_tokens [l_text l].
+Proof. exact wrap_line_meaning_refuted_hyphen. Qed.
+Print Assumptions C10_line_meaning_refuted_hyphen.
+
+(* 9c. a line with tabs whose raw length fits: textwrap expands the tabs and wraps the '$' comment as data *)
+Theorem C10_line_meaning_refuted_tab :
+  exists W l out,
+    11 < W /\ String.concat "" (l_chunks l) = munge (l_text l) /\ is_comment (l_text l) = false /\
+    wrap_line W "" (blanks 5) l = WOk out /\
+    data_tokens out <> data_tokens [munge (l_text l)].
+Proof. exact wrap_line_meaning_refuted_tab. Qed.
+Print Assumptions C10_line_meaning_refuted_tab.
+
+(* 9d. the bound 11 < W is needed (MontePy: 80 and 128) *)
+Theorem C10_line_meaning_refuted_narrow :
+  exists W line out,
+    5 + 2 < W /\ is_comment line = mcnp_comment_line line /\
+    Forall (fun c => slen c <= W - 5) (split_ws (before_dollar line)) /\
+    wrap_line W "" (blanks 5) (plain_line line) = WOk out /\
+    data_tokens out <> data_tokens [line].
+Proof. exact wrap_line_meaning_refuted_narrow. Qed.
+Print Assumptions C10_line_meaning_refuted_narrow.
+
+(* 10. a line that fits is written unchanged by _wrap_line *)
+Theorem C10_line_identity : forall W ii si line,
+  line <> "" -> slen ii + slen line <= W -> wrap_line W ii si (plain_line line) = WOk [ii ++ line].
+Proof. exact wrap_line_identity. Qed.
+Print Assumptions C10_line_identity.
+
+(* 11. (wrap_chunks alone) when no chunk is longer than a continuation line, re-splitting the wrapped lines at blanks
       gives exactly the tokens of the text *)
 Theorem C10_resplit : forall W cont text ls,
   cont < W ->
